@@ -103,7 +103,9 @@ Checkable::ProcessingResult Checkable::ProcessCheckResult(const CheckResult::Ptr
 {
 	using Result = Checkable::ProcessingResult;
 
-	{
+	/* Only the result of the check that is running (or its abortion) ends it: a passive result
+	 * that arrives meanwhile must not allow a second execution of the same checkable. */
+	if (!cr || cr->GetActive()) {
 		ObjectLock olock(this);
 		m_CheckRunning = false;
 #ifdef ICINGA2_VERIF
